@@ -108,6 +108,26 @@ def main():
         print(sid, {p: ("ALARM" if r["exit"] == 1 else "quiet" if r["exit"] == 0 else "exit%d" % r["exit"]) for p, r in res.items()} if "error" not in res else res)
         for p, r in res.items():
             if isinstance(r, dict) and r.get("summary"): print("   ", p, r["summary"][0][:300])
+    elif a[0] == "refresh":
+        # re-base stored patches that no longer apply to /repo's HEAD (3-way, using the blobs the patch names)
+        for sid in sorted(os.listdir(os.path.join(VERIF, "seeded"))):
+            dst = os.path.join(VERIF, "seeded", sid)
+            if not os.path.isdir(dst): continue
+            patch = os.path.join(dst, "patch.diff")
+            wt = worktree()
+            try:
+                if run(["git", "-C", wt, "apply", "--check", patch]).returncode == 0:
+                    continue
+                r = run(["git", "-C", wt, "apply", "-3", patch])
+                if r.returncode != 0:
+                    print(sid, "CANNOT re-base:", r.stdout[-300:]); continue
+                d = run(["git", "-C", wt, "diff", "HEAD"]).stdout
+                if not os.path.exists(os.path.join(dst, "patch.orig.diff")):
+                    shutil.copy(patch, os.path.join(dst, "patch.orig.diff"))
+                open(patch, "w").write(d)
+                print(sid, "re-based onto", run(["git", "-C", "/repo", "log", "--format=%h", "-1"]).stdout.strip())
+            finally:
+                rm_worktree(wt)
     elif a[0] == "run":
         sel = a[1:]
         for sid in sorted(os.listdir(os.path.join(VERIF, "seeded"))):
